@@ -43,10 +43,12 @@ func c02Event(t *rapid.T, label string, authors []string) *mocrelay.Event {
 
 func c02Pool(evs []*mocrelay.Event, authors []string) *gen.FilterPool {
 	p := gen.PoolFromEvents(evs, authors)
-	for _, n := range []string{"e", "p", "t", "E", "q"} {
+	// also names of more than one letter: a filter value built by an operator (allow / deny
+	// lists) may name any tag, the wire syntax only offers the single-letter ones
+	for _, n := range []string{"e", "p", "t", "E", "q", "emoji", "title", "pp"} {
 		p.TagVals[n] = []string{"x", "y", "z", "w", "x,y", "y,"}
 	}
-	p.TagNames = []string{"e", "p", "t", "E", "q"}
+	p.TagNames = []string{"e", "p", "t", "E", "q", "emoji", "title", "pp"}
 	p.AllowEmptyTagsMap = true
 	p.MaxLimit = 4
 	p.BigLimits = true
@@ -116,7 +118,15 @@ func TestC02Match(t *testing.T) {
 		// the filters as the matcher gets them: the values themselves, or (one case in three)
 		// decoded from their JSON text as a client would send them; the oracle keeps the values
 		real := fs
-		if len(fs) > 0 && rapid.IntRange(0, 2).Draw(t, "viatext") == 0 {
+		wireable := true // only single-letter tag names can be written as "#x" members
+		for _, f := range fs {
+			for name := range f.Tags {
+				if len(name) != 1 {
+					wireable = false
+				}
+			}
+		}
+		if len(fs) > 0 && wireable && rapid.IntRange(0, 2).Draw(t, "viatext") == 0 {
 			real = make([]*mocrelay.ReqFilter, len(fs))
 			for i, f := range fs {
 				var back mocrelay.ReqFilter
